@@ -21,6 +21,10 @@ func runVestMachine(t *rapid.T, on ...string) *vestMachine {
 	}
 	m.v = NewVestWorld(GenVTypes(t))
 	m.note("vesting types %s", jsonStr(m.v.VTypes))
+	m.v.AuthzEvery = []int{0, 0, 2, 5}[rapid.IntRange(0, 3).Draw(t, "authzEvery")]
+	if m.v.AuthzEvery > 0 {
+		m.note("every %d. message of the custom modules is submitted by a grantee through x/authz", m.v.AuthzEvery)
+	}
 	if rapid.IntRange(0, 2).Draw(t, "govOwnsPools") == 0 {
 		// the governance module account holds coins and may own pools (module-to-module transfer: no
 		// assumption about which addresses the bank lets receive coins)
@@ -37,8 +41,25 @@ func runVestMachine(t *rapid.T, on ...string) *vestMachine {
 	}
 	m.seedGenesisPools()
 	m.seedPools()
+	if rapid.Bool().Draw(t, "otherVestingKinds") {
+		m.otherKindAccounts()
+	}
 	t.Repeat(m.actions())
 	return m
+}
+
+// commonClasses: dimensions of the vesting state machine that every property using it explores.
+func (m *vestMachine) commonClasses() (cl []string) {
+	if m.govOwner {
+		cl = append(cl, "governance_account_may_own_pools")
+	}
+	if m.v.ViaAuthz > 0 {
+		cl = append(cl, "messages_submitted_through_authz")
+	}
+	if m.rewardAddressSet > 0 {
+		cl = append(cl, "owner_registered_another_reward_address")
+	}
+	return cl
 }
 
 func TestC05(t *testing.T) {
@@ -53,9 +74,6 @@ func TestC05(t *testing.T) {
 		if m.genesisBalanceOffRefused > 0 {
 			cl = append(cl, "genesis_with_wrong_module_balance_refused")
 		}
-		if m.govOwner {
-			cl = append(cl, "governance_account_may_own_pools")
-		}
 		if m.acceptedSend > 0 {
 			cl = append(cl, "accepted_send")
 		}
@@ -65,6 +83,7 @@ func TestC05(t *testing.T) {
 		if m.rejected > 0 {
 			cl = append(cl, "rejected_message")
 		}
+		cl = append(cl, m.commonClasses()...)
 		st.Case(nt, map[string]interface{}{"history": m.log}, cl...)
 	})
 }
@@ -96,6 +115,7 @@ func TestC06(t *testing.T) {
 		if m.sendSwitchedOff > 0 && m.withdrawAfterLockEnd > 0 {
 			cl = append(cl, "bank_transfers_switched_off_in_history")
 		}
+		cl = append(cl, m.commonClasses()...)
 		st.Case(nt, map[string]interface{}{"history": m.log}, cl...)
 	})
 }
@@ -121,6 +141,7 @@ func TestC08(t *testing.T) {
 		if m.restartMixedUnits > 0 {
 			cl = append(cl, "restart_with_type_stated_in_mixed_units")
 		}
+		cl = append(cl, m.commonClasses()...)
 		st.Case(nt, map[string]interface{}{"history": m.log}, cl...)
 	})
 }
@@ -208,5 +229,23 @@ func TestC05Restart(t *testing.T) {
 			cl = append(cl, "vesting_tx_accepted")
 		}
 		st.Case(restarts > 0 && d.accepted["cfevesting"] > 0, map[string]interface{}{"genesis": g, "history": d.log}, cl...)
+	})
+}
+
+// TestC05Upgrade: the identity across the v1.2.0 upgrade block, which rewrites pools (store
+// migration, split of the validators pool) without any message: generated pre-upgrade states (the
+// C16 generator), upgraded through the keeper-level steps or the real handler.
+func TestC05Upgrade(t *testing.T) {
+	st := StatsFor("C05")
+	rapid.Check(t, func(t *rapid.T) {
+		c16SolvencyOnly = true
+		defer func() { c16SolvencyOnly = false }()
+		if rapid.Bool().Draw(t, "viaHandler") {
+			w, ctx := caseNoICA()
+			v := &VestWorld{W: w, App: w.App, Ctx: ctx.WithBlockTime(nsTime(T0.UnixNano() + secNs)), NowNs: T0.UnixNano() + secNs, fresh: 1000}
+			runC16(t, st, v, true, false)
+		} else {
+			runC16(t, st, NewVestWorld(nil), false, false)
+		}
 	})
 }
